@@ -10,8 +10,11 @@ import traceback
 
 from . import Violation, HarnessError, VERIF, REPO
 
-EVID_DIR = os.path.join(VERIF, 'evidence')
-REPLAY_DIR = os.path.join(VERIF, 'replays')
+# VERIF_OUT_DIR redirects evidence and replay artefacts (used when a check is pointed at a mutant tree, so that
+# the committed evidence of the real tree is never overwritten by such a run)
+_OUT = os.environ.get('VERIF_OUT_DIR') or VERIF
+EVID_DIR = os.path.join(_OUT, 'evidence')
+REPLAY_DIR = os.path.join(_OUT, 'replays')
 KNOWN_FILE = os.path.join(VERIF, 'known_findings.json')
 
 # world kinds register: kind -> (run_job(job, seed) -> dict, replay(job, path) -> dict)
